@@ -334,6 +334,10 @@ def items(tier):
                 out.append(dict(kind="stress", id="stress-%s-%s-thick" % (tag, ptag), mesh=mesh, plane=pl, thick=True))
                 out.append(dict(kind="energy", id="energy-%s-%s-thick" % (tag, ptag), mesh=mesh, plane=pl, thick=True))
                 out.append(dict(kind="thermal", id="thermal-%s-%s-thick" % (tag, ptag), mesh=mesh, plane=pl, thick=True))
+        if M.dim == 2 and M.nel <= 2:
+            out.append(dict(kind="strain", id="strain-%s-voigt-thick" % tag, mesh=mesh, voigt=True, thick=True))
+            for ndof in (1, 2):
+                out.append(dict(kind="average", id="average-%s-ndof%d-thick" % (tag, ndof), mesh=mesh, ndof=ndof, thick=True))
         for ndof in (1, 2, 3):
             out.append(dict(kind="average", id="average-%s-ndof%d" % (tag, ndof), mesh=mesh, ndof=ndof))
         shapes = [(), (2,), (2, 2)]
